@@ -1,12 +1,1131 @@
-// Package c15 checks property C15 (not built yet).
+// Package c15 checks property C15: the operand list of every instruction and
+// terminator exposes one live slot for every value it uses, and a terminator's
+// successor list is exactly its branch targets.
+//
+// (S) spec/Operands.tla: ReplaceOperand / ReplaceAllUses / QuerySuccs as a state
+// machine over every configuration of spec/Schema.tla, invariants NoUseLeft,
+// SuccsLive, Complete, WriteExact; with AsImplemented=TRUE TLC must find the
+// three defect classes. (G) spec/SchemaEnum.tla enumerates every configuration
+// with the operand slot list and successor list the tables require; this
+// package builds the real instruction for each with distinct marker values and
+// compares Operands(), writes through every slot, Succs() before and after a
+// write. (T) replace-all-uses experiments on composed and on parsed functions
+// are recorded and judged by spec/OperandsTrace.tla.
 package c15
 
 import (
+	"fmt"
+	"math/rand"
+	"os"
+	"path/filepath"
+	"reflect"
+	"regexp"
+	"sort"
+	"strconv"
+	"strings"
+	"time"
+
+	"github.com/llir/llvm/asm"
+	"github.com/llir/llvm/ir"
+	"github.com/llir/llvm/ir/constant"
+	"github.com/llir/llvm/ir/metadata"
+	"github.com/llir/llvm/ir/types"
+	"github.com/llir/llvm/ir/value"
+
 	"verif/harness/mbt"
 	"verif/harness/props/reg"
+	"verif/harness/props/schema"
 )
 
 func init() { reg.Register("C15", Run) }
 
+// --- marker values -------------------------------------------------------------
+
+type world struct {
+	tc *schema.TypeCtx
+	F  *ir.Func
+	n  int
+}
+
+func newWorld() *world {
+	return &world{tc: schema.NewTypeCtx(nil), F: ir.NewFunc("f", types.Void)}
+}
+
+func (w *world) constOf(t types.Type, n int, tag string) constant.Constant {
+	switch t := t.(type) {
+	case *types.IntType:
+		if t.BitSize == 1 {
+			return constant.NewBool(n%2 == 1)
+		}
+		return constant.NewInt(t, int64(100+n))
+	case *types.FloatType:
+		return constant.NewFloat(t, float64(n))
+	case *types.PointerType:
+		return ir.NewGlobal(tag, t.ElemType)
+	case *types.VectorType:
+		if t.Scalable {
+			if n%2 == 0 {
+				return constant.NewZeroInitializer(t)
+			}
+			return constant.NewUndef(t)
+		}
+		var es []constant.Constant
+		for i := 0; i < int(t.Len); i++ {
+			es = append(es, w.constOf(t.ElemType, (n+i)%4-100, tag+strconv.Itoa(i)))
+		}
+		return constant.NewVector(t, es...)
+	case *types.ArrayType:
+		var es []constant.Constant
+		for i := 0; i < int(t.Len); i++ {
+			es = append(es, w.constOf(t.ElemType, n+i, tag+strconv.Itoa(i)))
+		}
+		return constant.NewArray(t, es...)
+	case *types.StructType:
+		var es []constant.Constant
+		for i, f := range t.Fields {
+			es = append(es, w.constOf(f, n+i, tag+strconv.Itoa(i)))
+		}
+		return constant.NewStruct(t, es...)
+	}
+	return constant.NewUndef(t)
+}
+
+// value returns a fresh value fit for operand op; alt selects the replacement flavour.
+func (w *world) value(c *schema.Case, op *schema.Op, tag string, alt bool) value.Value {
+	w.n++
+	t := w.tc.Type(&op.Ty)
+	switch op.Src {
+	case "any":
+		return ir.NewParam(tag, t)
+	case "const":
+		if op.Slot == "Indices" { // constant struct index: must stay a valid field number
+			if alt {
+				return constant.NewInt(types.I32, 0)
+			}
+			return constant.NewInt(types.I32, 1)
+		}
+		return w.constOf(t, w.n, tag)
+	case "block":
+		return w.F.NewBlock(tag)
+	case "func":
+		ft := w.tc.Type(op.Ty.E).(*types.FuncType)
+		var ps []*ir.Param
+		for _, p := range ft.Params {
+			ps = append(ps, ir.NewParam("", p))
+		}
+		f := ir.NewFunc(tag, ft.RetType, ps...)
+		f.Sig.Variadic = ft.Variadic
+		return f
+	case "pad":
+		if !alt {
+			return constant.None
+		}
+		p := ir.NewCleanupPad(constant.None)
+		p.SetName(tag)
+		return p
+	case "catchswitch":
+		cs := ir.NewCatchSwitch(constant.None, []*ir.Block{w.F.NewBlock(tag + "h")}, nil)
+		cs.SetName(tag)
+		return cs
+	case "catchpad":
+		cs := ir.NewCatchSwitch(constant.None, []*ir.Block{w.F.NewBlock(tag + "h")}, nil)
+		cs.SetName(tag + "s")
+		p := ir.NewCatchPad(cs)
+		p.SetName(tag)
+		return p
+	case "cleanuppad":
+		p := ir.NewCleanupPad(constant.None)
+		p.SetName(tag)
+		return p
+	}
+	mbt.Infra("spec gap: operand source %q of %s has no marker binding", op.Src, c.Kind)
+	return nil
+}
+
+func (w *world) markers(c *schema.Case) []value.Value {
+	out := make([]value.Value, len(c.Ops))
+	for i := range c.Ops {
+		out[i] = w.value(c, &c.Ops[i], "m"+strconv.Itoa(i+1), false)
+	}
+	return out
+}
+
+func build(w *world, c *schema.Case, vals []value.Value) (u value.User, msg string, panicked bool) {
+	msg, panicked = mbt.Guard(func() { u = schema.BuildInst(w.F.NewBlock("scratch"), c, vals, w.tc) })
+	return
+}
+
+type llstringer interface{ LLString() string }
+
+func text(u value.User) (s string, msg string, panicked bool) {
+	msg, panicked = mbt.Guard(func() { s = u.(llstringer).LLString() })
+	return
+}
+
+func same(a, b value.Value) bool {
+	defer func() { recover() }() // uncomparable dynamic types are never the same marker
+	return a == b
+}
+
+// --- the per-configuration check (G) ----------------------------------------------
+
+type caseRec struct {
+	ID   string       `json:"id"`
+	Case *schema.Case `json:"case"`
+}
+
+type checker struct {
+	rep        *mbt.Report
+	tabs       *schema.Tables
+	unbuild    int
+	orderDiff  map[string]bool
+	reflected  map[string]bool
+	slotsSeen  int
+	writesSeen int
+}
+
+func (ck *checker) fail(sig, what string, c *schema.Case) {
+	ck.rep.Fail(mbt.Failure{Signature: sig, What: what, Case: caseRec{ID: c.ID(), Case: c}})
+}
+
+var reTok = regexp.MustCompile(`[%@](?:"[^"]*"|[-a-zA-Z$._0-9]+)`)
+
+// tokens returns the identifier tokens of the printed user, its own result name excluded.
+func tokens(s string) []string {
+	if k := strings.Index(s, " = "); k > 0 && (s[0] == '%') && !strings.ContainsAny(s[:k], " \t") {
+		s = s[k+3:]
+	}
+	t := reTok.FindAllString(s, -1)
+	if t == nil {
+		t = []string{}
+	}
+	return t
+}
+
+func (ck *checker) checkCase(c *schema.Case) {
+	rep := ck.rep
+	if c.Res != nil && !c.Res.IsVoid() {
+		c.Name = "r"
+	}
+	w := newWorld()
+	ms := w.markers(c)
+	u, msg, p := build(w, c, ms)
+	if p {
+		ck.unbuild++
+		rep.Note("configuration %s cannot be built: %s (constructor type checks are C03's subject)", c.ID(), mbt.Truncate(msg, 200))
+		return
+	}
+	rep.Count("case:"+c.ID(), len(c.Ops) > 0)
+	ck.reflectCheck(u, c)
+	var ops []*value.Value
+	if msg, p := mbt.Guard(func() { ops = u.Operands() }); p {
+		ck.fail("C15|operands|"+c.Kind+"|panic", "Operands() panics: "+msg, c)
+		return
+	}
+	orig, _, _ := text(u)
+	// completeness: a bijection between table slots and returned slots, by identity of the marker
+	slotOf := make([]int, len(c.Ops)) // index into ops, -1 if missing
+	used := make([]bool, len(ops))
+	for i := range c.Ops {
+		slotOf[i] = -1
+		for k := range ops {
+			if !used[k] && ops[k] != nil && same(*ops[k], ms[i]) {
+				slotOf[i], used[k] = k, true
+				break
+			}
+		}
+	}
+	wrapperOf := map[int]int{}
+	for i := range c.Ops {
+		ck.slotsSeen++
+		if slotOf[i] >= 0 {
+			continue
+		}
+		op := &c.Ops[i]
+		// is the marker hidden inside an *ir.Arg wrapper?
+		wrapped := false
+		for k := range ops {
+			if used[k] || ops[k] == nil {
+				continue
+			}
+			if a, ok := (*ops[k]).(*ir.Arg); ok && same(a.Value, ms[i]) {
+				wrapped, used[k] = true, true
+				wrapperOf[i] = k
+				break
+			}
+		}
+		switch {
+		case wrapped:
+			ck.fail("C15|operands|"+c.Kind+"|arg-wrapped-not-reachable-as-itself",
+				fmt.Sprintf("%s: operand %s (%s) is only reachable as its *ir.Arg wrapper, *slot != the value; instruction: %s", c.Kind, op.Key(), ms[i].Ident(), orig), c)
+		case op.Role == "bundle input":
+			ck.fail("C15|operands|"+c.Kind+"|bundle-input-not-exposed",
+				fmt.Sprintf("%s: Operands() has no slot for operand-bundle input %s (%s); instruction: %s", c.Kind, op.Key(), ms[i].Ident(), orig), c)
+		default:
+			ck.fail("C15|operands|"+c.Kind+"|slot-missing|"+op.Slot,
+				fmt.Sprintf("%s: Operands() has no slot holding operand %s (%s); %d slots returned; instruction: %s", c.Kind, op.Key(), ms[i].Ident(), len(ops), orig), c)
+		}
+	}
+	for k := range ops {
+		if ops[k] == nil {
+			ck.fail("C15|operands|"+c.Kind+"|nil-slot", fmt.Sprintf("%s: Operands()[%d] is nil", c.Kind, k), c)
+		} else if !used[k] {
+			ck.fail("C15|operands|"+c.Kind+"|unexpected-slot",
+				fmt.Sprintf("%s: Operands()[%d] holds %v, which is no operand of the table; instruction: %s", c.Kind, k, *ops[k], orig), c)
+		}
+	}
+	prev := -1
+	for i := range c.Ops {
+		if slotOf[i] >= 0 {
+			if slotOf[i] < prev {
+				ck.orderDiff[c.Kind] = true
+			}
+			prev = slotOf[i]
+		}
+	}
+	// liveness: write a fresh value through each slot; the text must be that of the instruction built with it
+	for i := range c.Ops {
+		k, isWrapper := slotOf[i], false
+		if k < 0 {
+			if wk, ok := wrapperOf[i]; ok {
+				k, isWrapper = wk, true
+			} else {
+				continue
+			}
+		}
+		ck.writesSeen++
+		w2 := newWorld()
+		ms2 := w2.markers(c)
+		u2, _, p := build(w2, c, ms2)
+		if p {
+			continue
+		}
+		repl := w2.value(c, &c.Ops[i], "fresh", true)
+		ms3 := append([]value.Value{}, ms2...)
+		ms3[i] = repl
+		u3, msg, p := build(w2, c, ms3)
+		if p {
+			rep.Note("configuration %s cannot be rebuilt with a replacement for %s: %s", c.ID(), c.Ops[i].Key(), mbt.Truncate(msg, 160))
+			continue
+		}
+		want, _, _ := text(u3)
+		before, _, _ := text(u2)
+		ops2 := u2.Operands()
+		if k >= len(ops2) || ops2[k] == nil {
+			continue
+		}
+		*ops2[k] = repl
+		got, msg, p := text(u2)
+		rep.Count("write:"+c.ID()+":"+c.Ops[i].Key(), true)
+		switch {
+		case p:
+			ck.fail("C15|write|"+c.Kind+"|"+c.Ops[i].Role+"|print-panics", fmt.Sprintf("%s: LLString() panics after writing %s through the slot of %s: %s", c.Kind, repl.Ident(), c.Ops[i].Key(), msg), c)
+		case got == want:
+		case isWrapper:
+			ck.fail("C15|write|"+c.Kind+"|arg-wrapped-attrs-dropped",
+				fmt.Sprintf("%s: writing %s through the slot of %s replaces the whole *ir.Arg: got %q, the instruction built with the replacement prints %q", c.Kind, repl.Ident(), c.Ops[i].Key(), got, want), c)
+		case got == before:
+			ck.fail("C15|write|"+c.Kind+"|"+c.Ops[i].Role+"|write-not-live",
+				fmt.Sprintf("%s: writing %s through the slot of %s does not change the printed instruction %q (want %q)", c.Kind, repl.Ident(), c.Ops[i].Key(), got, want), c)
+		default:
+			ck.fail("C15|write|"+c.Kind+"|"+c.Ops[i].Role+"|text-differs",
+				fmt.Sprintf("%s: after writing %s through the slot of %s: got %q, want %q", c.Kind, repl.Ident(), c.Ops[i].Key(), got, want), c)
+		}
+	}
+	// successors
+	if t, ok := u.(ir.Terminator); ok {
+		ck.checkSuccs(t, c, w, ms)
+	}
+}
+
+func blockNames(bs []*ir.Block) string {
+	var s []string
+	for _, b := range bs {
+		if b == nil {
+			s = append(s, "<nil>")
+		} else {
+			s = append(s, b.Ident())
+		}
+	}
+	return "[" + strings.Join(s, " ") + "]"
+}
+
+func sameBlocks(a, b []*ir.Block) bool {
+	if len(a) != len(b) {
+		return false
+	}
+	for i := range a {
+		if a[i] != b[i] {
+			return false
+		}
+	}
+	return true
+}
+
+func (ck *checker) checkSuccs(t ir.Terminator, c *schema.Case, w *world, ms []value.Value) {
+	want := []*ir.Block{}
+	for _, s := range c.Succs {
+		want = append(want, ms[s-1].(*ir.Block))
+	}
+	var got []*ir.Block
+	if msg, p := mbt.Guard(func() { got = t.Succs() }); p {
+		ck.fail("C15|succs|"+c.Kind+"|panic", "Succs() panics: "+msg, c)
+		return
+	}
+	ck.rep.Count("succs:"+c.ID(), len(want) > 0)
+	if !sameBlocks(got, want) {
+		ck.fail("C15|succs|"+c.Kind+"|differs-from-targets", fmt.Sprintf("%s: Succs() = %s, the branch targets in order are %s", c.Kind, blockNames(got), blockNames(want)), c)
+		return
+	}
+	for _, b := range got {
+		if b.Parent != w.F {
+			ck.fail("C15|succs|"+c.Kind+"|foreign-block", fmt.Sprintf("%s: successor %s does not belong to the function", c.Kind, b.Ident()), c)
+		}
+	}
+	// after a write through the slot of a target: with and without an earlier Succs() call
+	for n, s := range c.Succs {
+		for _, primed := range []bool{false, true} {
+			w2 := newWorld()
+			ms2 := w2.markers(c)
+			u2, _, p := build(w2, c, ms2)
+			if p {
+				continue
+			}
+			t2 := u2.(ir.Terminator)
+			if primed {
+				t2.Succs()
+			}
+			nb := w2.F.NewBlock("fresh")
+			wrote := false
+			for _, sl := range u2.Operands() {
+				if sl != nil && same(*sl, ms2[s-1]) {
+					*sl = nb
+					wrote = true
+					break
+				}
+			}
+			if !wrote {
+				continue
+			}
+			want2 := []*ir.Block{}
+			for _, s2 := range c.Succs {
+				want2 = append(want2, ms2[s2-1].(*ir.Block))
+			}
+			want2[n] = nb
+			var got2 []*ir.Block
+			if msg, p := mbt.Guard(func() { got2 = t2.Succs() }); p {
+				ck.fail("C15|succs|"+c.Kind+"|panic-after-write", "Succs() panics after a write: "+msg, c)
+				continue
+			}
+			ck.rep.Count(fmt.Sprintf("succs-after-write:%s:%d:%v", c.ID(), n, primed), true)
+			if !sameBlocks(got2, want2) {
+				cls := "wrong-after-write"
+				if primed {
+					cls = "stale-after-write"
+				}
+				txt, _, _ := text(u2)
+				ck.fail("C15|succs|"+c.Kind+"|"+cls, fmt.Sprintf("%s: after writing %%fresh through the slot of %s (Succs() called before: %v) Succs() = %s but the instruction prints %q (targets %s)",
+					c.Kind, c.Ops[s-1].Key(), primed, blockNames(got2), txt, blockNames(want2)), c)
+			}
+		}
+	}
+}
+
+// --- reflection cross-check of the table -----------------------------------------
+
+var valueType = reflect.TypeOf((*value.Value)(nil)).Elem()
+
+// valueFields lists the paths of value-typed fields of struct type t
+// (value.Value, []value.Value, and one level into helper structs).
+func valueFields(t reflect.Type, prefix string, depth int) []string {
+	var out []string
+	for i := 0; i < t.NumField(); i++ {
+		f := t.Field(i)
+		if !f.IsExported() {
+			continue
+		}
+		ft := f.Type
+		switch {
+		case f.Anonymous:
+			// LocalIdent, Metadata: no operands (metadata attachments are not values)
+		case ft == valueType, ft.Kind() == reflect.Slice && ft.Elem() == valueType:
+			out = append(out, prefix+f.Name)
+		case depth == 0 && ft.Kind() == reflect.Slice && ft.Elem().Kind() == reflect.Ptr && ft.Elem().Elem().Kind() == reflect.Struct && ft.Elem().Elem().PkgPath() == t.PkgPath():
+			out = append(out, valueFields(ft.Elem().Elem(), prefix+f.Name+".", 1)...)
+		case depth == 0 && ft.Kind() == reflect.Ptr && ft.Elem().Kind() == reflect.Struct && ft.Elem().PkgPath() == t.PkgPath() && ft.Elem().Name() != "Func" && ft.Elem().Name() != "Block":
+			out = append(out, valueFields(ft.Elem(), prefix+f.Name+".", 1)...)
+		}
+	}
+	return out
+}
+
+func (ck *checker) reflectCheck(u value.User, c *schema.Case) {
+	t := reflect.TypeOf(u).Elem()
+	if ck.reflected[t.Name()] {
+		return
+	}
+	ck.reflected[t.Name()] = true
+	e := ck.tabs.Lookup(c.Cat, c.Kind)
+	table := map[string]bool{}
+	for _, n := range e.SlotNames() {
+		table[n] = true
+	}
+	fields := map[string]bool{}
+	for _, f := range valueFields(t, "", 0) {
+		fields[f] = true
+		if !table[f] {
+			mbt.Infra("spec gap: %s has the value-typed field %s, which the Schema table of %q lacks", t.Name(), f, c.Kind)
+		}
+	}
+	for n := range table {
+		if !fields[n] {
+			mbt.Infra("spec gap: slot %s of the Schema table of %q names no value-typed field of %s", n, c.Kind, t.Name())
+		}
+	}
+}
+
+// --- replace-all-uses experiments (T) ---------------------------------------------
+
+type userRec struct {
+	Kind   string   `json:"kind"`
+	Before []string `json:"before"`
+	After  []string `json:"after"`
+}
+
+type rauwRec struct {
+	ID    string    `json:"id"`
+	Old   string    `json:"old"`
+	New   string    `json:"new"`
+	Users []userRec `json:"users"`
+	// Go side only
+	classes []string // per user: where a remaining use sits
+	src     string
+}
+
+// contains reports where value old occurs inside v (not as v itself).
+func whereInside(v, old value.Value) string {
+	switch x := v.(type) {
+	case *ir.Arg:
+		if same(x.Value, old) {
+			return "arg-wrapper"
+		}
+		return whereInside(x.Value, old)
+	case *metadata.Value:
+		if v, ok := x.Value.(value.Value); ok && same(v, old) {
+			return "metadata-wrapper"
+		}
+	case constant.Constant:
+		if old != nil && strings.Contains(x.Ident(), old.Ident()) && !same(v, old) {
+			return "nested-constant"
+		}
+	}
+	return ""
+}
+
+func kindOfUser(u value.User) string {
+	n := reflect.TypeOf(u).Elem().Name()
+	n = strings.TrimPrefix(strings.TrimPrefix(n, "Inst"), "Term")
+	if n == "VAArg" {
+		return "va_arg"
+	}
+	return strings.ToLower(n)
+}
+
+// classify says where a use of old that survived the substitution sits in user u.
+func classify(u value.User, old value.Value) string {
+	for _, sl := range u.Operands() {
+		if sl == nil || *sl == nil {
+			continue
+		}
+		if w := whereInside(*sl, old); w != "" {
+			return w
+		}
+	}
+	// operand bundles are not reachable through Operands(): look at the fields
+	rv := reflect.ValueOf(u).Elem()
+	if f := rv.FieldByName("OperandBundles"); f.IsValid() {
+		for _, b := range f.Interface().([]*ir.OperandBundle) {
+			for _, in := range b.Inputs {
+				if same(in, old) {
+					return "bundle-input"
+				}
+			}
+		}
+	}
+	return "other"
+}
+
+// substitute performs ReplaceAllUses(old, new) through the slots of the users and records the texts.
+func substitute(id string, users []value.User, old, nw value.Value) (rec rauwRec, undo func()) {
+	rec = rauwRec{ID: id, Old: old.Ident(), New: nw.Ident()}
+	type saved struct {
+		sl *value.Value
+		v  value.Value
+	}
+	var log []saved
+	before := make([][]string, len(users))
+	for i, u := range users {
+		s, _, _ := text(u)
+		before[i] = tokens(s)
+	}
+	for _, u := range users {
+		for _, sl := range u.Operands() {
+			if sl != nil && same(*sl, old) {
+				log = append(log, saved{sl, *sl})
+				*sl = nw
+			}
+		}
+	}
+	for i, u := range users {
+		s, _, _ := text(u)
+		after := tokens(s)
+		uses := false
+		for _, t := range before[i] {
+			if t == rec.Old {
+				uses = true
+			}
+		}
+		if !uses {
+			continue // not a user of old
+		}
+		rec.Users = append(rec.Users, userRec{Kind: kindOfUser(u), Before: before[i], After: after})
+		rec.classes = append(rec.classes, classify(u, old))
+	}
+	undo = func() {
+		for _, s := range log {
+			*s.sl = s.v
+		}
+	}
+	return rec, undo
+}
+
+var reBadUse = regexp.MustCompile(`<<"BADUSE", "([^"]+)", (\d+), (\d+)>>`)
+
+// judge lets TLC (OperandsTrace.tla) judge the recorded experiments.
+func judge(rep *mbt.Report, recs []rauwRec, label string) {
+	if len(recs) == 0 {
+		return
+	}
+	t := mbt.MustTLC(mbt.TLCOpts{Spec: "OperandsTrace", Cfg: "OperandsTrace.cfg", Workers: 4, Continue: true,
+		Data: map[string][]byte{"rauw_rec.ndjson": mbt.NDJSONBytes(recs)}, Timeout: 10 * time.Minute})
+	defer t.Cleanup()
+	rep.AddTLC(t)
+	if t.Distinct != int64(len(recs))+1 {
+		mbt.Infra("OperandsTrace consumed %d rows of %d (%s)", t.Distinct-1, len(recs), label)
+	}
+	rep.TracesValidated += len(recs)
+	for _, v := range t.Violated {
+		if v != "RowOK" {
+			mbt.Infra("OperandsTrace: unexpected violation %s", v)
+		}
+	}
+	seen := map[string]bool{}
+	for _, m := range reBadUse.FindAllStringSubmatch(t.Output, -1) {
+		r, _ := strconv.Atoi(m[2])
+		u, _ := strconv.Atoi(m[3])
+		key := m[1] + ":" + m[2] + ":" + m[3]
+		if seen[key] {
+			continue
+		}
+		seen[key] = true
+		rec := recs[r-1]
+		ur := rec.Users[u-1]
+		cls := rec.classes[u-1]
+		sig := fmt.Sprintf("C15|rauw|%s|%s|%s", ur.Kind, m[1], cls)
+		rep.Fail(mbt.Failure{Signature: sig,
+			What: fmt.Sprintf("%s: after substituting %s for %s through the Operands() of all users, the %s still prints %v (before: %v) [%s]", rec.src, rec.New, rec.Old, ur.Kind, ur.After, ur.Before, cls),
+			Case: map[string]interface{}{"rauw": rec, "src": rec.src}})
+	}
+}
+
+// composed: two users built from the same configuration share their markers (all operands of one
+// type and source hold the same value), every named marker is replaced.
+func composedExperiments(rep *mbt.Report, cases []*schema.Case) []rauwRec {
+	var recs []rauwRec
+	for _, c := range cases {
+		if c.Fam != "config" && c.Fam != "wrap" || len(c.Ops) == 0 {
+			continue
+		}
+		mk := func() (*world, []value.User, []value.Value) {
+			w := newWorld()
+			shared := map[string]value.Value{}
+			ms := make([]value.Value, len(c.Ops))
+			for i := range c.Ops {
+				key := c.Ops[i].Ty.String() + "/" + c.Ops[i].Src
+				if c.Ops[i].Src == "const" || c.Ops[i].Src == "func" || c.Ops[i].Src == "pad" {
+					key += "/" + strconv.Itoa(i) // constants are not replaced; callee and pads stay single
+				}
+				if _, ok := shared[key]; !ok {
+					shared[key] = w.value(c, &c.Ops[i], "s"+strconv.Itoa(len(shared)+1), false)
+				}
+				ms[i] = shared[key]
+			}
+			var us []value.User
+			for k := 0; k < 2; k++ {
+				u, _, p := build(w, c, ms)
+				if p {
+					return nil, nil, nil
+				}
+				us = append(us, u)
+			}
+			return w, us, ms
+		}
+		_, _, ms0 := mk()
+		if ms0 == nil {
+			continue
+		}
+		done := map[string]bool{}
+		for i := range ms0 {
+			id := ms0[i].Ident()
+			if done[id] || !(strings.HasPrefix(id, "%") || strings.HasPrefix(id, "@")) {
+				continue
+			}
+			done[id] = true
+			w, us, ms := mk()
+			nw := w.value(c, &c.Ops[i], "verif_new", true)
+			rec, _ := substitute(c.ID()+"#"+c.Ops[i].Key(), us, ms[i], nw)
+			rec.src = "composed " + c.ID()
+			if len(rec.Users) > 0 {
+				recs = append(recs, rec)
+				rep.Count("rauw:"+rec.ID, true)
+			}
+		}
+	}
+	return recs
+}
+
+type namedLocal interface {
+	value.Named
+	ID() int64
+	SetID(int64)
+	IsUnnamed() bool
+}
+
+// parsedExperiments: for every named or numbered local value and every directly used global of
+// every function of the module, substitute through all users' slots and re-print.
+func parsedExperiments(rep *mbt.Report, ck *checker, m *ir.Module, src string, skipped map[string]int) []rauwRec {
+	var recs []rauwRec
+	for _, f := range m.Funcs {
+		if len(f.Blocks) == 0 {
+			continue
+		}
+		var users []value.User
+		var olds []value.Value
+		for _, p := range f.Params {
+			olds = append(olds, p)
+		}
+		for _, b := range f.Blocks {
+			olds = append(olds, b)
+			for _, in := range b.Insts {
+				users = append(users, in)
+				if v, ok := in.(value.Named); ok {
+					if !types.Equal(v.Type(), types.Void) {
+						olds = append(olds, v)
+					}
+				}
+			}
+			users = append(users, b.Term)
+			if v, ok := b.Term.(value.Named); ok && !types.Equal(v.Type(), types.Void) {
+				olds = append(olds, v)
+			}
+			ck.checkParsedTerm(f, b, src)
+		}
+		ck.checkParsedOperands(users, src)
+		for _, g := range m.Globals {
+			olds = append(olds, g)
+		}
+		for _, g := range m.Funcs {
+			olds = append(olds, g)
+		}
+		for oi, old := range olds {
+			var nw value.Value
+			var restore func()
+			switch o := old.(type) {
+			case *ir.Block:
+				name, id, unnamed := o.LocalName, o.LocalID, o.IsUnnamed()
+				o.SetName("verif_old")
+				restore = func() {
+					o.LocalName, o.LocalID = name, id
+					_ = unnamed
+				}
+				nw = ir.NewBlock("verif_new")
+			case namedLocal:
+				name, id, unnamed := o.Name(), o.ID(), o.IsUnnamed()
+				o.SetName("verif_old")
+				restore = func() {
+					if unnamed {
+						o.SetName("")
+						o.SetID(id)
+					} else {
+						o.SetName(name)
+					}
+				}
+				nw = ir.NewParam("verif_new", o.Type())
+			default:
+				restore = func() {}
+				nw = ir.NewParam("verif_new", old.Type())
+			}
+			var rec rauwRec
+			var undo func()
+			if msg, p := mbt.Guard(func() {
+				rec, undo = substitute(fmt.Sprintf("%s:%s#%d", src, f.Ident(), oi), users, old, nw)
+			}); p {
+				restore()
+				rep.Fail(mbt.Failure{Signature: "C15|rauw|parsed|panic", What: fmt.Sprintf("%s %s: substituting for %s panics: %s", src, f.Ident(), old.Ident(), msg), Case: map[string]string{"src": src}})
+				continue
+			}
+			rec.src = fmt.Sprintf("parsed %s %s", src, f.Ident())
+			// uses nested in constants (constant expressions, blockaddress) are not operands of the
+			// instruction in this library: outside the property's quantifier, counted
+			nested := false
+			for i, cl := range rec.classes {
+				if cl == "nested-constant" {
+					left := false
+					for _, t := range rec.Users[i].After {
+						if t == rec.Old {
+							left = true
+						}
+					}
+					if left {
+						nested = true
+					}
+				}
+			}
+			undo()
+			restore()
+			if nested {
+				skipped["nested-constant"]++
+				continue
+			}
+			if len(rec.Users) > 0 {
+				recs = append(recs, rec)
+				rep.Count("rauw:"+rec.ID, true)
+			}
+		}
+	}
+	return recs
+}
+
+// checkParsedOperands: every value-typed field of a parsed instruction (by the slot names of the
+// table) must be addressed by exactly one slot of Operands().
+func (ck *checker) checkParsedOperands(users []value.User, src string) {
+	for _, u := range users {
+		kind := kindOfUser(u)
+		e := ck.tabs.Lookup("inst", kind)
+		if e == nil {
+			mbt.Infra("spec gap: no Schema entry for %T (%s)", u, kind)
+		}
+		ops := u.Operands()
+		addr := map[*value.Value]bool{}
+		for _, sl := range ops {
+			addr[sl] = true
+		}
+		txt, _, _ := text(u)
+		missing := func(slot, cls string) {
+			ck.rep.Fail(mbt.Failure{Signature: "C15|operands|" + kind + "|" + cls,
+				What: fmt.Sprintf("parsed %s: Operands() of %q has no slot addressing field %s", src, txt, slot),
+				Case: map[string]string{"src": src, "inst": txt}})
+		}
+		rv := reflect.ValueOf(u).Elem()
+		for _, slot := range e.SlotNames() {
+			parts := strings.Split(slot, ".")
+			f := rv.FieldByName(parts[0])
+			if !f.IsValid() {
+				continue
+			}
+			var ptrs []*value.Value
+			collect := func(fv reflect.Value) {
+				switch {
+				case fv.Type() == valueType:
+					if !fv.IsNil() {
+						ptrs = append(ptrs, fv.Addr().Interface().(*value.Value))
+					}
+				case fv.Kind() == reflect.Slice && fv.Type().Elem() == valueType:
+					for i := 0; i < fv.Len(); i++ {
+						ptrs = append(ptrs, fv.Index(i).Addr().Interface().(*value.Value))
+					}
+				}
+			}
+			if len(parts) == 1 {
+				collect(f)
+			} else {
+				for i := 0; i < f.Len(); i++ {
+					collect(f.Index(i).Elem().FieldByName(parts[1]))
+				}
+			}
+			for _, p := range ptrs {
+				ck.rep.Count("parsed-slot:"+kind+":"+slot, true)
+				ck.slotsSeen++
+				if !addr[p] {
+					cls := "slot-missing|" + slot
+					if slot == "OperandBundles.Inputs" {
+						cls = "bundle-input-not-exposed"
+					}
+					missing(slot, cls)
+				} else if a, ok := (*p).(*ir.Arg); ok {
+					ck.rep.Fail(mbt.Failure{Signature: "C15|operands|" + kind + "|arg-wrapped-not-reachable-as-itself",
+						What: fmt.Sprintf("parsed %s: argument %s of %q is only reachable as its *ir.Arg wrapper", src, a.Value.Ident(), txt),
+						Case: map[string]string{"src": src, "inst": txt}})
+				}
+			}
+		}
+	}
+}
+
+// checkParsedTerm: Succs() of a parsed terminator = the target fields named by the table, in order,
+// all blocks of the enclosing function.
+func (ck *checker) checkParsedTerm(f *ir.Func, b *ir.Block, src string) {
+	t := b.Term
+	if t == nil {
+		return
+	}
+	kind := kindOfUser(t)
+	e := ck.tabs.Lookup("term", kind)
+	if e == nil {
+		mbt.Infra("spec gap: no Schema entry for %T", t)
+	}
+	rv := reflect.ValueOf(t).Elem()
+	want := []*ir.Block{}
+	for _, slot := range e.Succs {
+		parts := strings.Split(slot, ".")
+		fv := rv.FieldByName(parts[0])
+		add := func(v reflect.Value) {
+			if v.Type() == valueType {
+				if !v.IsNil() {
+					if bl, ok := v.Interface().(*ir.Block); ok {
+						want = append(want, bl)
+					}
+				}
+			} else if v.Kind() == reflect.Slice {
+				for i := 0; i < v.Len(); i++ {
+					if bl, ok := v.Index(i).Interface().(*ir.Block); ok {
+						want = append(want, bl)
+					}
+				}
+			}
+		}
+		if len(parts) == 1 {
+			add(fv)
+		} else {
+			for i := 0; i < fv.Len(); i++ {
+				add(fv.Index(i).Elem().FieldByName(parts[1]))
+			}
+		}
+	}
+	var got []*ir.Block
+	txt, _, _ := text(t)
+	if msg, p := mbt.Guard(func() { got = t.Succs() }); p {
+		ck.rep.Fail(mbt.Failure{Signature: "C15|succs|" + kind + "|panic", What: fmt.Sprintf("parsed %s: Succs() of %q panics: %s", src, txt, msg), Case: map[string]string{"src": src}})
+		return
+	}
+	ck.rep.Count("parsed-succs:"+src+":"+f.Ident()+":"+b.Ident(), len(want) > 0)
+	if !sameBlocks(got, want) {
+		ck.rep.Fail(mbt.Failure{Signature: "C15|succs|" + kind + "|differs-from-targets",
+			What: fmt.Sprintf("parsed %s: Succs() of %q = %s, targets are %s", src, txt, blockNames(got), blockNames(want)), Case: map[string]string{"src": src, "term": txt}})
+		return
+	}
+	in := map[*ir.Block]bool{}
+	for _, x := range f.Blocks {
+		in[x] = true
+	}
+	for _, s := range got {
+		if !in[s] || s.Parent != f {
+			ck.rep.Fail(mbt.Failure{Signature: "C15|succs|" + kind + "|foreign-block",
+				What: fmt.Sprintf("parsed %s: successor %s of %q is not a block of %s (Parent link or containment)", src, s.Ident(), txt, f.Ident()), Case: map[string]string{"src": src, "term": txt}})
+		}
+	}
+}
+
+// --- corpus ------------------------------------------------------------------------
+
+type source struct{ name, text string }
+
+func corpus(tier string, tabs *schema.Tables, rng *rand.Rand) []source {
+	var out []source
+	for _, dir := range []string{filepath.Join(mbt.Repo, "testdata"), filepath.Join(mbt.Repo, "asm", "testdata")} {
+		fs, _ := filepath.Glob(filepath.Join(dir, "*.ll"))
+		sort.Strings(fs)
+		for _, f := range fs {
+			if b, err := os.ReadFile(f); err == nil {
+				out = append(out, source{"file:" + filepath.Base(f), string(b)})
+			}
+		}
+	}
+	// every Schema kind in a valid context: the cover programs of Build.tla, rendered from the templates
+	t := mbt.MustTLC(mbt.TLCOpts{Spec: "Build", Cfg: "BuildCover.cfg", Workers: 1, Timeout: 10 * time.Minute})
+	progs, err := mbt.ReadNDJSON[schema.Prog](filepath.Join(t.Dir, "progs.ndjson"))
+	t.Cleanup()
+	if err != nil {
+		mbt.Infra("progs.ndjson: %v", err)
+	}
+	for i := range progs {
+		if progs[i].Fam == "cover" {
+			out = append(out, source{"cover:" + progs[i].ID, schema.RenderProg(tabs, &progs[i])})
+		}
+	}
+	n := 8
+	if tier == "thorough" {
+		n = 60
+	}
+	for i := 0; i < n; i++ {
+		seed := rng.Intn(1 << 30)
+		so, _, code, err := mbt.Tool(nil, 30*time.Second, "llvm-stress", "-seed", strconv.Itoa(seed), "-size", "120")
+		if err != nil || code != 0 {
+			mbt.Infra("llvm-stress failed")
+		}
+		out = append(out, source{"stress:" + strconv.Itoa(seed), string(so)})
+	}
+	return out
+}
+
+// --- driver --------------------------------------------------------------------------
+
 // Run is the C15 check.
-func Run(tier, replay string) { mbt.Infra("check C15 is not built yet") }
+func Run(tier, replay string) {
+	rep := mbt.NewReport("C15", tier, "model_checking")
+	rep.Rule = "instruction configurations (kind x class x repetition counts x bundle shape x Arg wrapping) with at least one operand whose Operands() was compared with the Schema table; every (configuration, slot) written through; every terminator configuration's Succs() before and after a write; replace-all-uses experiments judged by TLC"
+	rng := rand.New(rand.NewSource(mbt.Seed()))
+
+	// (S) the design-level model
+	t := mbt.MustTLC(mbt.TLCOpts{Spec: "Operands", Cfg: "Operands.cfg", Timeout: 15 * time.Minute})
+	if len(t.Violated) > 0 {
+		mbt.Infra("Operands.tla with AsImplemented=FALSE violates %v: specification error", t.Violated)
+	}
+	rep.AddTLC(t)
+	t.Cleanup()
+	for _, inv := range []string{"NoUseLeft", "SuccsLive", "Complete"} {
+		t := mbt.MustTLC(mbt.TLCOpts{Spec: "Operands", Cfg: "OperandsImpl_" + inv + ".cfg", Timeout: 10 * time.Minute})
+		if len(t.Violated) == 0 {
+			mbt.Infra("vacuity guard: Operands.tla with AsImplemented=TRUE does not violate %s", inv)
+		}
+		t.Cleanup()
+	}
+
+	// (G) the configurations
+	t = mbt.MustTLC(mbt.TLCOpts{Spec: "SchemaEnum", Cfg: "SchemaEnum.cfg", Workers: 1, Timeout: 10 * time.Minute})
+	if len(t.Violated) > 0 {
+		mbt.Infra("SchemaEnum: table inconsistency %v", t.Violated)
+	}
+	rep.AddTLC(t)
+	var tabs schema.Tables
+	if err := mbt.ReadJSON(filepath.Join(t.Dir, "schema.json"), &tabs); err != nil {
+		mbt.Infra("schema.json: %v", err)
+	}
+	cases, err := mbt.ReadNDJSON[*schema.Case](filepath.Join(t.Dir, "cases.ndjson"))
+	if err != nil {
+		mbt.Infra("cases.ndjson: %v", err)
+	}
+	t.Cleanup()
+	ck := &checker{rep: rep, tabs: &tabs, orderDiff: map[string]bool{}, reflected: map[string]bool{}}
+
+	if replay != "" {
+		runReplay(rep, ck, replay)
+		rep.Finish()
+	}
+
+	if int64(len(cases)) != t.Distinct-1-int64(len(tabs.Kinds)) {
+		mbt.Infra("cases.ndjson has %d rows for %d configuration states", len(cases), t.Distinct-1-int64(len(tabs.Kinds)))
+	}
+	kinds := map[string]bool{}
+	for _, c := range cases {
+		kinds[c.Kind] = true
+		ck.checkCase(c)
+	}
+	rep.TracesValidated += len(cases)
+	if len(kinds) != len(tabs.Kinds) || len(ck.reflected) != len(tabs.Kinds) {
+		mbt.Infra("only %d of %d kinds were built (%d struct types cross-checked)", len(kinds), len(tabs.Kinds), len(ck.reflected))
+	}
+	if ck.unbuild*50 > len(cases) {
+		mbt.Infra("%d of %d configurations cannot be built: the Schema typing is wrong", ck.unbuild, len(cases))
+	}
+	for i, c := range cases {
+		if i%200 == 0 {
+			rep.Sample(map[string]interface{}{"configuration": c.ID(), "operands": len(c.Ops), "succs": c.Succs})
+		}
+	}
+
+	// (T) replace-all-uses: composed users, then parsed functions
+	recs := composedExperiments(rep, cases)
+	judge(rep, recs, "composed")
+	skipped := map[string]int{}
+	var precs []rauwRec
+	nparsed, nrejected := 0, 0
+	var rejected []string
+	for _, s := range corpus(tier, &tabs, rng) {
+		var m *ir.Module
+		var perr error
+		if msg, p := mbt.Guard(func() { m, perr = asm.ParseString(s.name, s.text) }); p || perr != nil {
+			nrejected++
+			if perr != nil {
+				msg = perr.Error()
+			}
+			rejected = append(rejected, s.name+": "+mbt.Truncate(strings.ReplaceAll(msg, "\n", " "), 140))
+			continue // parser acceptance is C01's subject
+		}
+		nparsed++
+		precs = append(precs, parsedExperiments(rep, ck, m, s.name, skipped)...)
+	}
+	judge(rep, precs, "parsed")
+	if len(precs) > 0 {
+		rep.Sample(map[string]interface{}{"rauw": precs[len(precs)/2].ID, "old": precs[len(precs)/2].Old, "users": precs[len(precs)/2].Users})
+	}
+	rep.Extra["kinds_covered"] = len(kinds)
+	rep.Extra["configurations"] = len(cases)
+	rep.Extra["slots_checked"] = ck.slotsSeen
+	rep.Extra["slot_writes_checked"] = ck.writesSeen
+	rep.Extra["struct_types_cross_checked_by_reflection"] = len(ck.reflected)
+	rep.Extra["rauw_experiments_composed"] = len(recs)
+	rep.Extra["rauw_experiments_parsed"] = len(precs)
+	rep.Extra["parsed_modules"] = nparsed
+	rep.Extra["corpus_modules_rejected_by_parser"] = nrejected
+	if len(rejected) > 12 {
+		rejected = rejected[:12]
+	}
+	rep.Extra["corpus_modules_rejected_by_parser_examples"] = rejected
+	rep.Extra["rauw_skipped_use_nested_in_constant"] = skipped["nested-constant"]
+	rep.Extra["unbuildable_configurations"] = ck.unbuild
+	var od []string
+	for k := range ck.orderDiff {
+		od = append(od, k)
+	}
+	sort.Strings(od)
+	rep.Extra["kinds_whose_slot_order_differs_from_textual_order"] = od
+	rep.Exhaustive = true
+	rep.Explanation = "exhaustive over the configuration space of SchemaEnum.tla (every kind, optional operands present/absent, lists of length 0..2, bundle shapes, Arg wrapping); the replace-all-uses experiments on parsed functions are a seeded sample"
+	rep.Assumptions = []string{
+		"Schema.tla transcribes the operand structure of the LLVM 14 LangRef correctly; the reflection pass shows that it names every value-typed field of the 66 instruction structs (a missing field is exit 2)",
+		"slots are matched by identity of the marker value, not by position: a different but complete slot order is accepted",
+		"uses of a value nested inside a constant (constant expression, blockaddress) are not operands of the instruction in this library and are outside the quantifier (counted in rauw_skipped_use_nested_in_constant)",
+	}
+	rep.Finish()
+}
+
+func runReplay(rep *mbt.Report, ck *checker, path string) {
+	var rf struct {
+		Failures []struct {
+			Case map[string]interface{} `json:"case"`
+		} `json:"failures"`
+	}
+	if err := mbt.ReadJSON(path, &rf); err != nil {
+		mbt.Infra("replay %s: %v", path, err)
+	}
+	for _, f := range rf.Failures {
+		if f.Case == nil {
+			continue
+		}
+		b := mbt.NDJSONBytes([]interface{}{f.Case})
+		tmp, _ := os.CreateTemp("", "c15-replay-*.json")
+		tmp.Write(b)
+		tmp.Close()
+		if _, ok := f.Case["case"]; ok {
+			var cr caseRec
+			if err := mbt.ReadJSON(tmp.Name(), &cr); err == nil && cr.Case != nil {
+				ck.checkCase(cr.Case)
+			}
+		} else if src, ok := f.Case["src"].(string); ok {
+			rep.Note("replay of a corpus experiment: source %s is re-run by the full check (corpus is regenerated from the seed)", src)
+			rep.Count("replay:"+src, true)
+		}
+		os.Remove(tmp.Name())
+	}
+}
